@@ -6,11 +6,13 @@ From InvokeVerif Require Spec.C08Spec Spec.C14Spec.
 Record case := mk {
   k_pty : bool; k_in : bool; k_warn : bool; k_async : bool; k_start_fail : bool;
   k_hold_out : bool; k_hold_err : bool;
-  k_kwarg : option nat;          (* run(timeout=...) if given *)
-  k_config : option nat;         (* config.timeouts.command *)
+  k_kwarg : option nat;          (* run(timeout=...) if given, in tenths of a second *)
+  k_config : option nat;         (* config.timeouts.command, in tenths of a second *)
   k_script : list ev;
   k_obs : sm_obs;
-  k_interval : option nat        (* interval of the Timer that was created, if any *)
+  k_interval : option nat;       (* interval of the Timer that was created, if any (tenths of a second) *)
+  k_text_ok : bool               (* the text in the Result / Failure is, read for read and in order, what the
+                                    scripted reads delivered (every read carries a distinct byte) *)
 }.
 
 Definition is_some {A} (o : option A) : bool := match o with Some _ => true | None => false end.
@@ -55,10 +57,10 @@ Definition model_interval (k : case) : option nat :=
 
 Definition corr (k : case) : bool :=
   sm_obs_eqb (observe (run_sm (cfg_of k) (k_script k))) (k_obs k) &&
-  opt_nat_eqb (model_interval k) (k_interval k).
+  opt_nat_eqb (model_interval k) (k_interval k) && k_text_ok k.
 
-Definition spec08 (k : case) : bool := C08Spec.spec_ok (cfg_of k) (k_script k) (k_obs k).
+Definition spec08 (k : case) : bool := C08Spec.spec_ok (cfg_of k) (k_script k) (k_obs k) && k_text_ok k.
 
 Definition spec14 (k : case) : bool :=
-  C14Spec.spec_ok (cfg_of k) (k_script k) (k_obs k) &&
+  C14Spec.spec_ok (cfg_of k) (k_script k) (k_obs k) && k_text_ok k &&
   (k_start_fail k || C14Spec.timeout_ok (k_kwarg k) (k_config k) (k_interval k)).
